@@ -34,7 +34,9 @@ ASSUMPTIONS = ["the property's domain (in_domain of Spec_C06.v): every Length/da
                "fields other than the pair carry values canonical for their type"]
 RULE = ("every Length/data pair of the dumped metadata in every table (header, trailer, every message body, every repeating group "
         "down to the schema's depth), placed in a message with the mandatory fields of its surroundings and fields after it; "
-        "contents: each of the 256 byte values alone, lengths 0, 1, 2, 2046, 2047 (2048 as out-of-domain), random bytes, SOH / "
+        "contents: each of the 256 byte values alone, lengths 0, 1, 2, 2046, 2047 (2048 as out-of-domain), lengths that make the "
+        "encoded body exactly 99/100/101 and 999/1000/1001 bytes (BodyLength digit ladder; thorough: every length 0..2047 for "
+        "two placements), random bytes, SOH / "
         "'=' / NUL patterns; P cases go through build-encode-decode (RT), W cases decode a wire image built by the suite (NUL "
         "contents, Length smaller / larger / non-numeric).  non-trivial = in-domain case whose decode returned an object; "
         "distinct = distinct case lines")
@@ -195,6 +197,58 @@ def content_for(rng, kind, cls):
     return rand_bytes(rng, n, avoid=(0, 1) if in_group else (0,))
 
 
+MARK = b"\x02\x03MARK\x03\x02"
+
+
+def body_length(meta, m):
+    """BodyLength the encoder will compute for message m: everything from 35= up to 10=."""
+    toks = H.wire_tokens(meta, *m)
+    return len(b"35=" + m[0].encode() + SOHB) + sum(len(t.raw) + 1 for t in toks)
+
+
+def _find_pair(fs, L, D):
+    for i, f in enumerate(fs):
+        if f.fnum == D and f.val == MARK:
+            return next(g for g in fs if g.fnum == L), f
+        if f.elems:
+            for e in f.elems:
+                r = _find_pair(e, L, D)
+                if r:
+                    return r
+    return None
+
+
+def sized(rng, gen, meta, simple, pl, target=None, n=None):
+    """The message of placement pl whose content is chosen so that the encoded BODY length is
+    exactly `target` (None if that cannot be reached), or whose content has exactly n bytes.
+    Message::encode picks the width of the BodyLength text by a ladder of comparisons; the
+    preamble is written backwards from the body, so an off-by-one there clobbers 35=."""
+    m = place(rng, gen, meta, simple, pl, b"0", MARK, flat=True)
+    lf, df = _find_pair(m[1], pl[4], pl[5]) or _find_pair(m[2], pl[4], pl[5]) or _find_pair(m[3], pl[4], pl[5])
+
+    def fill(k):
+        kind = pl[0]
+        c = bytearray(rand_bytes(rng, k, avoid=(0, 1) if kind in ("G", "T") else (0,)))
+        if kind not in ("G", "T"):
+            for _ in range(min(k, 3)):
+                c[rng.randrange(k)] = rng.choice((1, 61, 0xff))
+        df.val = bytes(c)
+        lf.val = str(k).encode()
+    if n is not None:
+        fill(n)
+        return m
+    for k in range(0, 2048):
+        df.val = b"x" * k
+        lf.val = str(k).encode()
+        bl = body_length(meta, m)
+        if bl == target:
+            fill(k)
+            return m
+        if bl > target:
+            return None
+    return None
+
+
 def pre(schema, default):
     return "" if schema == default else "@%s " % schema
 
@@ -271,6 +325,23 @@ def gen_cases(rng, tier):
         for pl in top[:6]:
             for n in (2046, 2047):
                 cs.append(P(pl, bytes((i * 7 + n) % 255 + 1 for i in range(n)), "bound"))
+        # 3b. BodyLength digit-count boundaries: the content length is computed so that the encoded
+        #     body is exactly 99/100/101 and 999/1000/1001 bytes long (the pair must survive the
+        #     encoder's preamble arithmetic as well); thorough: every content length 0..2047
+        bpl = []
+        for want in ((90, 91), (95, 96), (212, 213), (354, 355)):
+            bpl += [p for p in byk["H"] + byk["B"] if (p[4], p[5]) == want][:1]
+        for pl in bpl:
+            for target in (99, 100, 101, 999, 1000, 1001):
+                for rep in range(2 if main else 1):
+                    m = sized(rng, gen, meta, simple, pl, target=target)
+                    if m is not None:
+                        cs.append(Case(px + "P " + G.ser_msg(*m), "bodylen-%d-%s" % (target, pl[0])))
+        if thorough and main:
+            for pl in bpl[:2]:
+                for n in range(0, 2048):
+                    m = sized(rng, gen, meta, simple, pl, n=n)
+                    cs.append(Case(px + "P " + G.ser_msg(*m), "sweep-%s" % pl[0]))
         # 4. NUL contents: through the API (truncated at construction) and as a wire image
         for k in range(30 * scale if main else 8):
             pl = rng.choice(top if k % 3 else (grp or top))
